@@ -107,7 +107,7 @@ TraceReadBuffered ==
 \* streamed body: a read returns the next k bytes of the body (0 <= k <= p); EOF exactly at the end
 TraceReadStream ==
     /\ active /\ HasLine /\ Line.ev = "Read" /\ cfg.streaming /\ phase = "handle"
-    /\ Line.err = ""
+    /\ Line.err = "" \/ (reqs[cur].partial /\ ~Line.eof)      \* a body cut short by the peer fails the read
     /\ Line.k >= 0 /\ Line.k <= Line.p
     /\ Line.runs = OneRun(cur, cons, Line.k)
     /\ Line.eof => cons + Line.k = BodyLen(cur)          \* EOF is not reported early
@@ -210,7 +210,7 @@ TraceContinue == /\ active /\ phase = "after" /\ NeedsIdle /\ Continue /\ UNCHAN
 \* the connection is over: every request up to the first that closes was handled, unless the server gave up on
 \* a connection whose streamed body was left unread
 TraceEnd == /\ active /\ HasLine /\ Line.ev = "End" /\ phase = "closed"
-            /\ unread \/ Len(hlog) = ExpectedHandled
+            /\ unread \/ HandledOK(Len(hlog))
             /\ ~(topen /\ pairReq # 0)         \* the pair of a handled request has been finished
             /\ Blank /\ Consume
 
